@@ -175,15 +175,18 @@ func (e *swExtractor) Extract(ctx context.Context, input *filesystem.ScanInput) 
 	pkg := &extractor.Package{Name: key, Version: "1", Locations: []string{input.Path}}
 	// a second package that ties with every other extraction's on name and version (sort keys 3 and 4 decide)
 	tie := &extractor.Package{Name: "tie", Version: "1", Locations: []string{input.Path}}
+	// two more that also tie on extractor and on the first (smallest) location: only the later location decides
+	tieY := &extractor.Package{Name: "tie", Version: "1", Locations: []string{"~y", input.Path}}
+	tieX := &extractor.Package{Name: "tie", Version: "1", Locations: []string{input.Path, "~x"}}
 	switch e.out[input.Path] {
 	case "err":
 		return inventory.Inventory{}, errors.New("extraction failed")
 	case "errpkg":
-		return inventory.Inventory{Packages: []*extractor.Package{pkg, tie}}, errors.New("extraction partly failed")
+		return inventory.Inventory{Packages: []*extractor.Package{tieY, pkg, tie, tieX}}, errors.New("extraction partly failed")
 	case "empty":
 		return inventory.Inventory{}, nil
 	}
-	return inventory.Inventory{Packages: []*extractor.Package{tie, pkg}}, nil
+	return inventory.Inventory{Packages: []*extractor.Package{tieY, tie, pkg, tieX}}, nil
 }
 
 type swStandalone struct{ s *swSession }
@@ -230,20 +233,21 @@ func (c *swStats) AfterInodeVisited(p string) {
 }
 
 type swObs struct {
-	Mode       string         `json:"mode"`
-	Status     string         `json:"status"`
-	Reason     string         `json:"reason,omitempty"`
-	Calls      [][]any        `json:"calls"`
-	Pkgs       [][]any        `json:"pkgs"`
-	Plugins    map[string]any `json:"plugins"`
-	Visited    int            `json:"visited"`
-	Sorted     bool           `json:"sorted"`
-	DupStatus  bool           `json:"dup_status"`
-	Standalone int            `json:"standalone"`
-	Detector   int            `json:"detector"`
-	Ties       int            `json:"ties"`
-	AfterCanc  []string       `json:"after_cancel"`
-	Panic      string         `json:"panic,omitempty"`
+	Mode         string         `json:"mode"`
+	Status       string         `json:"status"`
+	Reason       string         `json:"reason,omitempty"`
+	Calls        [][]any        `json:"calls"`
+	Pkgs         [][]any        `json:"pkgs"`
+	Plugins      map[string]any `json:"plugins"`
+	Visited      int            `json:"visited"`
+	Sorted       bool           `json:"sorted"`
+	DupStatus    bool           `json:"dup_status"`
+	Standalone   int            `json:"standalone"`
+	Detector     int            `json:"detector"`
+	Ties         int            `json:"ties"`
+	NoStandalone bool           `json:"no_standalone"`
+	AfterCanc    []string       `json:"after_cancel"`
+	Panic        string         `json:"panic,omitempty"`
 }
 
 func bagToTriples(m map[string]int) [][]any {
@@ -320,6 +324,7 @@ func runScanWalk(c *swCase, mode, nmName, tmp string, faultKind int) (obs swObs)
 			rootDir := filepath.Join(base, "root")
 			os.Mkdir(rootDir, 0755)
 			os.WriteFile(filepath.Join(base, "linktarget"), []byte("LT"), 0644)
+			os.WriteFile(filepath.Join(base, "linktarget-big"), bigTarget, 0644)
 			for _, n := range c.Nodes {
 				cp := filepath.Join(rootDir, filepath.FromSlash(mapPath(n.P, nm)))
 				os.MkdirAll(filepath.Dir(cp), 0755)
@@ -328,6 +333,8 @@ func runScanWalk(c *swCase, mode, nmName, tmp string, faultKind int) (obs swObs)
 					os.MkdirAll(cp, 0755)
 				case "link":
 					os.Symlink(filepath.Join(base, "linktarget"), cp)
+				case "linkbig":
+					os.Symlink(filepath.Join(base, "linktarget-big"), cp)
 				case "special":
 					syscall.Mkfifo(cp, 0644)
 				default:
@@ -350,6 +357,9 @@ func runScanWalk(c *swCase, mode, nmName, tmp string, faultKind int) (obs swObs)
 			m.nodes[cp] = &mnode{kind: k, data: content(n.K, rootSize(r, n.K, n.Size), n.Gi, n.P)}
 			if k == "dir" {
 				m.nodes[cp].data = nil
+			}
+			if k == "link" || k == "linkbig" {
+				m.nodes[cp].data = []byte("->t") // what Lstat-like information reports: the link text
 			}
 			par := path.Dir(n.P)
 			kids[par] = append(kids[par], n.P)
@@ -397,9 +407,16 @@ func runScanWalk(c *swCase, mode, nmName, tmp string, faultKind int) (obs swObs)
 		}
 		exs = append(exs, e)
 	}
+	// every other cancellation scenario runs without a standalone extractor, so that the detector loop is the
+	// first plugin loop to meet the cancelled context
+	sas := []standalone.Extractor{&swStandalone{s}}
+	if c.Cfg.Cancel.Kind != "none" && faultKind%2 == 1 {
+		sas = nil
+		obs.NoStandalone = true
+	}
 	cfg := &scalibr.ScanConfig{
 		FilesystemExtractors: exs,
-		StandaloneExtractors: []standalone.Extractor{&swStandalone{s}},
+		StandaloneExtractors: sas,
 		Detectors:            []detector.Detector{&swDetector{s}},
 		ScanRoots:            roots,
 		UseGitignore:         c.Cfg.UseGit,
